@@ -147,7 +147,13 @@ def run_counts(ctx, rng, idx):
     fx, fy = int(rng.integers(1, 7)), int(rng.integers(1, 7))
     nx, ny = int(rng.integers(2, 10)), int(rng.integers(2, 10))
     r = rng.random()
-    if r < 0.06:
+    if r < 0.015:
+        # frame count and single cells beyond 16-bit ranges
+        T = int(rng.integers(66000, 140000))
+        fx, fy, nx, ny = int(rng.integers(1, 3)), int(rng.integers(1, 3)), \
+            2, int(rng.integers(2, 4))
+        ctx.count('very_long_trajectory_cases')
+    elif r < 0.06:
         T = int(rng.integers(3000, 9000))           # long trajectory
     elif r < 0.12:
         nx, ny = int(rng.integers(40, 120)), int(rng.integers(2, 90))
